@@ -20,6 +20,8 @@ import ast
 from harness.common import TranslateError, ast_digest, src_text
 
 PURE_TREE_METHODS = {'_serialise', 'serialise', 'serialize', 'export', 'has_children', 'is_root'}
+WRITER_METHODS = {'_serialise', 'serialise', 'serialize', 'export'}
+PURE_STR_METHODS = {'casefold', 'lower', 'upper', 'strip', 'lstrip', 'rstrip', 'startswith', 'endswith', 'replace', 'encode', 'isspace'}
 MUTATING_METHODS = {'append', 'extend', 'insert', 'pop', 'remove', 'clear', 'sort', 'reverse', 'edit', 'set_key',
                     'merge_children', 'ensure_exists', '__setitem__', '__delitem__', '__iadd__', 'popitem',
                     'update', 'setdefault'}
@@ -216,6 +218,9 @@ def census(fn: ast.FunctionDef, self_name: str) -> tuple[list, list, list]:
         if isinstance(n, (ast.For, ast.comprehension)) and isinstance(n.target, ast.Name) \
                 and _root_name(n.iter) in tree_names:
             tree_names.add(n.target.id)
+    write_aliases = {n.targets[0].id for n in ast.walk(fn)
+                     if isinstance(n, ast.Assign) and len(n.targets) == 1 and isinstance(n.targets[0], ast.Name)
+                     and isinstance(n.value, ast.Attribute) and n.value.attr == 'write' and _root_name(n.value) not in tree_names}
     stores, muts, info = [], [], []
     for n in ast.walk(fn):
         tgts = []
@@ -242,9 +247,19 @@ def census(fn: ast.FunctionDef, self_name: str) -> tuple[list, list, list]:
                 rn = _root_name(f.value)
                 if rn in tree_names:
                     if f.attr in PURE_TREE_METHODS:
-                        pass
+                        # the writers themselves are censused one by one; any other method taken as pure must be a
+                        # one-line predicate whose expression calls nothing but pure functions and binds nothing
+                        if f.attr not in WRITER_METHODS:
+                            mf = SELF_PREDS.get(f.attr)
+                            if mf is None or any(isinstance(x, ast.NamedExpr) or (isinstance(x, ast.Call) and not (
+                                    isinstance(x.func, ast.Name) and x.func.id in PURE_FUNCS))
+                                    for x in ast.walk(_strip_doc(mf.body)[0].value)):
+                                raise _err(n, f'.{f.attr}() is taken as pure but is not a one-line pure predicate')
                     elif f.attr in MUTATING_METHODS:
                         muts.append(n.lineno)
+                    elif f.attr in PURE_STR_METHODS and isinstance(f.value, ast.Attribute) \
+                            and f.value.attr in ('_real_name', 'real_name', 'name', '_folded_name'):
+                        pass        # a str method on the name of a node: strings are immutable
                     else:
                         raise _err(n, f'unclassified method call .{f.attr}() on a tree object')
                 else:
@@ -252,7 +267,11 @@ def census(fn: ast.FunctionDef, self_name: str) -> tuple[list, list, list]:
                         if isinstance(a, ast.Name) and a.id in tree_names:
                             raise _err(n, f'tree object passed to {ast.unparse(f)}')
             elif isinstance(f, ast.Name):
-                if f.id not in PURE_FUNCS and not _pure_helper(f.id):
+                if f.id in write_aliases:       # `w = file.write; w(text)`: a write to the file, as `file.write(text)` is
+                    for a in list(n.args) + [k.value for k in n.keywords]:
+                        if isinstance(a, ast.Name) and a.id in tree_names:
+                            raise _err(n, f'tree object passed to {f.id}')
+                elif f.id not in PURE_FUNCS and not _pure_helper(f.id):
                     raise _err(n, f'unclassified call {f.id}()')
             else:
                 raise _err(n, 'unclassified call expression')
@@ -330,123 +349,242 @@ def norm_tail(stmts: list) -> list:
 
 
 def tr_serialise(fn: ast.FunctionDef, inner: ast.FunctionDef):
+    """serialise(), executed symbolically path by path (round 4; before: a shape matcher that failed closed).
+
+    Values: the parameters (`file`: not known to be None or not until a test asks; `indent_braces`; `start_indent`;
+    `indent`), None, fresh `io.StringIO()` buffers with the text written to them so far, texts (pieces of an
+    f-string over `indent`, or a sequence of segments).  Effects: `self._serialise(target, indent, open, close, start)` appends
+    the segment "what _serialise writes with these braces and this cur_indent" to the target (a buffer or the caller's
+    file); `target.write(text)` appends the text; `buffer.getvalue()` reads a buffer; any other function applied to a
+    text gives a *post-processed* segment.  Tests of `file is None`, of `indent_braces`, and of anything else fork the
+    path (the last kind is counted: the reference shape has none).  Per path the result is what reached the
+    destination -- the caller's file when one was given, else the returned value -- and whether the return value is
+    right for the path (the text when file is None, None otherwise).  Names are not fixed; `x = A if c else B`,
+    `return A if c else B`, tuple assignments, `buffer = io.StringIO(); file = buffer` are all the same execution.
+    -> (brace templates for gen_sercfg, self name, paths)."""
+    import copy
     a = fn.args
     params = [x.arg for x in a.posonlyargs + a.args + a.kwonlyargs]
     self_name = params[0]
     for need in ('indent', 'indent_braces', 'start_indent'):
         if need not in params:
             raise _err(fn, f'serialise() has no parameter {need}')
-    call = None
-    for n in ast.walk(fn):
-        if isinstance(n, ast.Call) and isinstance(n.func, ast.Attribute) and n.func.attr == inner.name \
-                and _is_name(n.func.value, self_name):
-            if call is not None:
-                raise _err(n, 'more than one call to _serialise in serialise')
-            call = n
-    if call is None or call.keywords or len(call.args) != 5 or not all(isinstance(x, ast.Name) for x in call.args):
-        raise _err(fn, 'call self._serialise(file, indent, open_brace, close_brace, start_indent) not recognised')
-    _file, ind, ob, cb, start = [x.id for x in call.args]
-    if ind != 'indent' or start != 'start_indent':
-        raise _err(call, 'indent/start_indent are not passed through unchanged')
-    # the returned string is what was written: `if file is None: file = buffer = io.StringIO()` ... `_serialise(file, ...)`
-    # ... `if buffer is not None: return buffer.getvalue()` (the text model describes the writes to `file`)
-    file_param = params[1] if len(params) > 1 else None
-    if _file != file_param:
-        raise _err(call, 'the file parameter is not what _serialise writes to')
-    bufs = [n for n in ast.walk(fn) if isinstance(n, ast.Assign) and isinstance(n.value, ast.Call)
-            and isinstance(n.value.func, ast.Attribute) and n.value.func.attr == 'StringIO' and not n.value.args
-            and not n.value.keywords]
-    if len(bufs) != 1 or not 1 <= len(bufs[0].targets) <= 2 or not all(isinstance(t, ast.Name) for t in bufs[0].targets):
-        raise _err(fn, 'creation of the io.StringIO() buffer not recognised')
-    guard = [n for n in ast.walk(fn) if isinstance(n, ast.If) and bufs[0] in n.body]
-    if len(guard) != 1 or ast.dump(guard[0].test) != ast.dump(ast.parse(f'{file_param} is None', mode='eval').body):
-        raise _err(fn, 'the StringIO buffer is not created exactly when file is None')
-    tnames = [t.id for t in bufs[0].targets]
-    if file_param in tnames and len(tnames) == 2:
-        buf_name = next(t for t in tnames if t != file_param)           # file = buffer = io.StringIO()
-    elif file_param not in tnames and len(tnames) == 1:
-        buf_name = tnames[0]                                            # buffer = io.StringIO(); file = buffer
-        after = guard[0].body[guard[0].body.index(bufs[0]) + 1:]
-        if not any(isinstance(x, ast.Assign) and len(x.targets) == 1 and _is_name(x.targets[0], file_param)
-                   and _is_name(x.value, buf_name) for x in after):
-            raise _err(fn, 'the StringIO buffer is not what file is set to')
-    else:
-        raise _err(fn, 'creation of the io.StringIO() buffer not recognised')
-    for n in ast.walk(fn):
-        if isinstance(n, ast.Assign) and n is not bufs[0] and any(_is_name(t, buf_name) for t in n.targets) \
-                and not (isinstance(n.value, ast.Constant) and n.value.value is None) and n.lineno > bufs[0].lineno:
-            raise _err(n, 'the buffer variable is rebound')
-    rets = [n for n in ast.walk(fn) if isinstance(n, ast.Return) and n.value is not None
-            and not (isinstance(n.value, ast.Constant) and n.value.value is None)]
-    getval = ast.dump(ast.parse(f'{buf_name}.getvalue()', mode='eval').body)
+    if len(params) != 5 or a.vararg or a.kwarg:
+        raise _err(fn, 'serialise(self, file, *, indent, indent_braces, start_indent) expected')
+    file_param = params[1]
+    fs = FStr(self_name, {'indent': 'VIndent'})
+    inner_params = [x.arg for x in inner.args.posonlyargs + inner.args.args]
 
-    def returns_text(v) -> bool:
-        if ast.dump(v) == getval:
-            return True
-        if isinstance(v, ast.IfExp):      # buffer.getvalue() if buffer is not None else None   (or the other way round)
-            none = lambda x: isinstance(x, ast.Constant) and x.value is None          # noqa: E731
-            t_ = ast.dump(v.test)
-            if t_ == ast.dump(ast.parse(f'{buf_name} is not None', mode='eval').body):
-                return ast.dump(v.body) == getval and none(v.orelse)
-            if t_ == ast.dump(ast.parse(f'{buf_name} is None', mode='eval').body):
-                return ast.dump(v.orelse) == getval and none(v.body)
-        return False
-    if len(rets) != 1 or not returns_text(rets[0].value):
-        raise _err(fn, 'serialise() does not return buffer.getvalue()')
-    if rets[0].lineno < call.lineno:
-        raise _err(fn, 'serialise() returns before writing')
-    # `x = A if c else B` (also on tuples) is `if c: x = A else: x = B`
-    for holder in ast.walk(fn):
-        for fld in ('body', 'orelse'):
-            stmts = getattr(holder, fld, None)
-            if not isinstance(stmts, list):
-                continue
-            for i, st_ in enumerate(stmts):
-                if isinstance(st_, ast.Assign) and isinstance(st_.value, ast.IfExp):
-                    ie = st_.value
-                    new = ast.If(test=ie.test,
-                                 body=[ast.copy_location(ast.Assign(targets=st_.targets, value=ie.body), st_)],
-                                 orelse=[ast.copy_location(ast.Assign(targets=st_.targets, value=ie.orelse), st_)])
-                    stmts[i] = ast.copy_location(new, st_)
-    # no rebinding of the option names
-    brace_if = None
-    for n in ast.walk(fn):
-        if isinstance(n, ast.If) and _is_name(n.test, 'indent_braces'):
-            if brace_if is not None:
-                raise _err(n, 'two tests of indent_braces')
-            brace_if = n
-    if brace_if is None:
-        raise _err(fn, 'if indent_braces: ... not found')
-    inside = {id(x) for x in ast.walk(brace_if)}
-    for n in ast.walk(fn):
-        if isinstance(n, (ast.Assign, ast.AugAssign, ast.AnnAssign)) and id(n) not in inside:
-            tg = n.targets if isinstance(n, ast.Assign) else [n.target]
-            for t in tg:
-                for nm in ast.walk(t):
-                    if isinstance(nm, ast.Name) and nm.id in (ind, ob, cb, start, 'indent_braces'):
-                        raise _err(n, f'{nm.id} is assigned outside the indent_braces test')
-    fs = FStr(self_name, {ind: 'VIndent'})
+    class St:
+        def __init__(self):
+            self.env = {self_name: ('self',), file_param: ('file',), 'indent': ('str', [('Var', 'VIndent')]),
+                        'indent_braces': ('ib',), 'start_indent': ('start',)}
+            self.bufs: list = []
+            self.ext: list = []
+            self.assume = {'file_none': None, 'ib': None}
+            self.other: list = []
+            self.ret = None
 
-    def branch(stmts):
-        got = {}
-        for s in stmts:
-            if not isinstance(s, ast.Assign) or len(s.targets) != 1:
-                raise _err(s, 'unexpected statement in the indent_braces test')
-            t, v = s.targets[0], s.value
-            if isinstance(t, ast.Tuple) and isinstance(v, ast.Tuple) and len(t.elts) == len(v.elts):
-                pairs = list(zip(t.elts, v.elts))
-            else:
-                pairs = [(t, v)]
-            for tt, vv in pairs:
-                if not isinstance(tt, ast.Name) or tt.id not in (ob, cb):
-                    raise _err(s, 'unexpected assignment target in the indent_braces test')
-                got[tt.id] = fs.pieces(vv)
-        if set(got) != {ob, cb}:
-            raise _err(brace_if, 'open_brace/close_brace not both defined in a branch')
-        return got[ob], got[cb]
-    oi, ci = branch(brace_if.body)
-    op, cp = branch(brace_if.orelse)
-    return dict(open_ind=oi, close_ind=ci, open_plain=op, close_plain=cp), self_name
+        def copy(self):
+            n = St()
+            n.env, n.bufs, n.ext = dict(self.env), [list(b) for b in self.bufs], list(self.ext)
+            n.assume, n.other, n.ret = dict(self.assume), list(self.other), self.ret
+            return n
+
+    def ev(e, st):
+        if isinstance(e, ast.Constant):
+            if e.value is None:
+                return ('none',)
+            if isinstance(e.value, str):
+                return ('str', [('Lit', e.value)] if e.value else [])
+            return ('unknown', repr(e.value))
+        if isinstance(e, ast.Name):
+            return st.env.get(e.id, ('unknown', e.id))
+        if isinstance(e, ast.Call) and not e.args and not e.keywords and (
+                (isinstance(e.func, ast.Attribute) and e.func.attr == 'StringIO') or _is_name(e.func, 'StringIO')):
+            st.bufs.append([])
+            return ('buf', len(st.bufs) - 1)
+        if isinstance(e, ast.Call) and isinstance(e.func, ast.Attribute) and e.func.attr == 'getvalue' and not e.args \
+                and not e.keywords:
+            v = ev(e.func.value, st)
+            if v[0] == 'buf':
+                return ('text', list(st.bufs[v[1]]))
+            return ('unknown', ast.unparse(e))
+        if isinstance(e, (ast.JoinedStr, ast.BinOp)) or (isinstance(e, ast.Call) and isinstance(e.func, ast.Attribute)
+                                                           and e.func.attr == 'format'):
+            # a text over `indent` and string locals
+            fs.locals = {k: v[1] for k, v in st.env.items() if v[0] == 'str' and k != 'indent'}
+            try:
+                return ('str', fs.pieces(e))
+            except TranslateError:
+                pass
+        if isinstance(e, ast.Call):
+            vals = [ev(x, st) for x in list(e.args) + [k.value for k in e.keywords]]
+            if any(v[0] in ('text', 'buf') for v in vals):
+                return ('text', [('post', ast.unparse(e.func))])
+            return ('unknown', ast.unparse(e)[:60])
+        return ('unknown', ast.unparse(e)[:60])
+
+    def decide(t, st):
+        """-> True / False / ('fork', key)"""
+        if isinstance(t, ast.UnaryOp) and isinstance(t.op, ast.Not):
+            d = decide(t.operand, st)
+            return (not d) if isinstance(d, bool) else ('fork-not', d[1])
+        if isinstance(t, ast.Compare) and len(t.ops) == 1 and isinstance(t.ops[0], (ast.Is, ast.IsNot)) \
+                and isinstance(t.comparators[0], ast.Constant) and t.comparators[0].value is None:
+            v = ev(t.left, st)
+            pos = isinstance(t.ops[0], ast.Is)
+            if v[0] == 'none':
+                return pos
+            if v[0] == 'file':
+                if st.assume['file_none'] is not None:
+                    return st.assume['file_none'] == pos
+                return ('fork', 'file_none') if pos else ('fork-not', 'file_none')
+            if v[0] in ('buf', 'str', 'text', 'self'):
+                return not pos
+        if isinstance(t, ast.Name):
+            v = ev(t, st)
+            if v[0] == 'ib':
+                if st.assume['ib'] is not None:
+                    return st.assume['ib']
+                return ('fork', 'ib')
+            if v[0] == 'none':
+                return False
+            if v[0] == 'buf':
+                return True
+        return ('fork', 'other:' + ast.unparse(t)[:60])
+
+    def assume(st, key, val):
+        if key in ('file_none', 'ib'):
+            st.assume[key] = val
+            if key == 'file_none' and val:
+                for k, v in list(st.env.items()):
+                    if v == ('file',):
+                        st.env[k] = ('none',)
+        else:
+            st.other.append((key, val))
+
+    def bind(t, v, st, at):
+        if isinstance(t, ast.Name):
+            if t.id in ('indent', 'indent_braces', 'start_indent', self_name):
+                raise _err(at, f'serialise(): {t.id} is rebound')
+            st.env[t.id] = v
+        else:
+            raise _err(at, 'serialise(): assignment target not understood')
+
+    def target_append(tv, seg, st, at):
+        if tv[0] == 'buf':
+            st.bufs[tv[1]] += seg
+        elif tv[0] == 'file' and st.assume['file_none'] is not True:
+            if st.assume['file_none'] is None:
+                # written to the caller's file without having asked whether there is one: on the path file=None this raises
+                st.ext += [('post', 'write to file without a None test')]
+            st.ext += seg
+        else:
+            raise _err(at, 'serialise(): write target is neither a StringIO buffer nor the file parameter')
+
+    def run(stmts, st):
+        if st.ret is not None or not stmts:
+            return [st]
+        s_, rest = stmts[0], list(stmts[1:])
+        if isinstance(s_, ast.Pass) or (isinstance(s_, ast.Expr) and isinstance(s_.value, ast.Constant)) \
+                or (isinstance(s_, ast.AnnAssign) and s_.value is None) or isinstance(s_, ast.Assert):
+            return run(rest, st)
+        if isinstance(s_, (ast.Assign, ast.AnnAssign)):
+            tgts = s_.targets if isinstance(s_, ast.Assign) else [s_.target]
+            if isinstance(s_.value, ast.IfExp):
+                ie = s_.value
+                mk = lambda v: ast.copy_location(ast.Assign(targets=tgts, value=v), s_)      # noqa: E731
+                return run([ast.copy_location(ast.If(test=ie.test, body=[mk(ie.body)], orelse=[mk(ie.orelse)]), s_)] + rest, st)
+            if isinstance(s_.value, ast.Tuple) and all(isinstance(t, ast.Tuple) and len(t.elts) == len(s_.value.elts) for t in tgts):
+                vals = [ev(x, st) for x in s_.value.elts]
+                for t in tgts:
+                    for tt, v in zip(t.elts, vals):
+                        bind(tt, v, st, s_)
+                return run(rest, st)
+            v = ev(s_.value, st)
+            for t in tgts:
+                bind(t, v, st, s_)
+            return run(rest, st)
+        if isinstance(s_, ast.If):
+            d = decide(s_.test, st)
+            if isinstance(d, bool):
+                return run(list(s_.body if d else s_.orelse) + rest, st)
+            neg = d[0] == 'fork-not'
+            st1, st2 = st.copy(), st.copy()
+            assume(st1, d[1], not neg)
+            assume(st2, d[1], neg)
+            return run(list(s_.body) + rest, st1) + run(list(s_.orelse) + rest, st2)
+        if isinstance(s_, ast.Return):
+            if isinstance(s_.value, ast.IfExp):
+                ie = s_.value
+                mk = lambda v: ast.copy_location(ast.Return(value=v), s_)      # noqa: E731
+                return run([ast.copy_location(ast.If(test=ie.test, body=[mk(ie.body)], orelse=[mk(ie.orelse)]), s_)], st)
+            st.ret = ('none',) if s_.value is None else ev(s_.value, st)
+            return [st]
+        if isinstance(s_, ast.Expr) and isinstance(s_.value, ast.Call) and isinstance(s_.value.func, ast.Attribute):
+            c = s_.value
+            if c.func.attr == inner.name and _is_name(c.func.value, self_name):
+                cargs = list(c.args)
+                if any(isinstance(x, ast.Starred) for x in cargs) or any(k.arg is None for k in c.keywords):
+                    raise _err(s_, 'serialise(): */** arguments in the call of _serialise')
+                kw = {k.arg: k.value for k in c.keywords}
+                for pname in inner_params[1 + len(cargs):]:
+                    if pname not in kw:
+                        raise _err(s_, f'serialise(): _serialise is not given {pname}')
+                    cargs.append(kw.pop(pname))
+                if kw or len(cargs) != 5:
+                    raise _err(s_, 'serialise(): _serialise is not called with its 5 arguments')
+                tv, iv, ov, cv, sv = [ev(x, st) for x in cargs]
+                if iv != ('str', [('Var', 'VIndent')]):
+                    raise _err(s_, 'serialise(): indent is not passed through unchanged')
+                if ov[0] != 'str' or cv[0] != 'str':
+                    raise _err(s_, 'serialise(): open_brace / close_brace are not texts over indent')
+                start = 'SAStart' if sv == ('start',) else 'SAEmpty' if sv == ('str', []) else 'SAOther'
+                target_append(tv, [('ser', ov[1], cv[1], start)], st, s_)
+                return run(rest, st)
+            if c.func.attr == 'write' and len(c.args) == 1 and not c.keywords:
+                tv = ev(c.func.value, st)
+                v = ev(c.args[0], st)
+                seg = v[1] if v[0] == 'text' else [('lit', v[1])] if v[0] == 'str' else \
+                    [('post', 'a text the writer model does not know: ' + ast.unparse(c.args[0])[:40])]
+                target_append(tv, seg, st, s_)
+                return run(rest, st)
+        raise _err(s_, f'serialise(): statement not understood: {ast.unparse(s_)[:60]}')
+
+    finals = run(_strip_doc(copy.deepcopy(fn.body)), St())
+    paths = []
+    braces: dict = {}
+    for st in finals:
+        ret = st.ret or ('none',)
+        for fnone in ([True, False] if st.assume['file_none'] is None else [st.assume['file_none']]):
+            for ib in ([True, False] if st.assume['ib'] is None else [st.assume['ib']]):
+                if fnone:
+                    dest = ret[1] if ret[0] == 'text' else [('post', 'the returned value is not the text of a buffer')]
+                    if st.ext:
+                        dest = dest + [('post', 'text also written to the file parameter although it is None')]
+                    ret_ok = ret[0] == 'text'
+                else:
+                    dest = st.ext
+                    ret_ok = ret[0] == 'none'
+                segs = []
+                for sg in dest:
+                    if sg[0] == 'ser':
+                        key_o, key_c = ('open_ind', 'close_ind') if ib else ('open_plain', 'close_plain')
+                        if braces.setdefault(key_o, sg[1]) != sg[1] or braces.setdefault(key_c, sg[2]) != sg[2]:
+                            raise _err(fn, 'serialise(): different brace templates on different paths')
+                        segs.append(f'SSer {sg[3]}')
+                    elif sg[0] == 'lit':
+                        if sg[1]:
+                            segs.append('SLit')
+                    else:
+                        segs.append('SPost')
+                paths.append(dict(file_none=fnone, ib=ib, extra_tests=len(st.other), segs=segs, ret_ok=ret_ok,
+                                  why=[sg[1] for sg in dest if sg[0] == 'post'] + [k for k, _ in st.other]))
+    for k in ('open_ind', 'close_ind', 'open_plain', 'close_plain'):
+        if k not in braces:
+            raise _err(fn, f'serialise(): no path hands a {k} template to _serialise')
+    return braces, self_name, paths
 
 
 def tr_inner(fn: ast.FunctionDef):
@@ -459,13 +597,33 @@ def tr_inner(fn: ast.FunctionDef):
     def is_self_attr(n, attr):
         return isinstance(n, ast.Attribute) and n.attr == attr and _is_name(n.value, self_name)
 
+    # `w = file.write` (hoisted attribute lookup): a call of `w` is a call of `file.write`
+    write_aliases = {n.targets[0].id for n in ast.walk(fn)
+                     if isinstance(n, ast.Assign) and len(n.targets) == 1 and isinstance(n.targets[0], ast.Name)
+                     and isinstance(n.value, ast.Attribute) and n.value.attr == 'write' and _is_name(n.value.value, file_name)}
+    for n in ast.walk(fn):      # such a name must not be bound to anything else
+        if isinstance(n, (ast.Assign, ast.AugAssign, ast.AnnAssign, ast.For)):
+            tg = n.targets if isinstance(n, ast.Assign) else [n.target]
+            for t in tg:
+                for nm in ast.walk(t):
+                    if isinstance(nm, ast.Name) and nm.id in write_aliases and not (
+                            isinstance(n, ast.Assign) and isinstance(n.value, ast.Attribute) and n.value.attr == 'write'
+                            and _is_name(n.value.value, file_name)):
+                        raise _err(n, f'{nm.id} is bound to file.write and to something else')
+
     def write_arg(s):
-        if isinstance(s, ast.Expr) and isinstance(s.value, ast.Call) and isinstance(s.value.func, ast.Attribute) \
-                and s.value.func.attr == 'write' and _is_name(s.value.func.value, file_name):
+        if isinstance(s, ast.Expr) and isinstance(s.value, ast.Call) and (
+                (isinstance(s.value.func, ast.Attribute) and s.value.func.attr == 'write'
+                 and _is_name(s.value.func.value, file_name))
+                or (isinstance(s.value.func, ast.Name) and s.value.func.id in write_aliases)):
             if len(s.value.args) != 1 or s.value.keywords:
                 raise _err(s, 'file.write with other than one argument')
             return s.value.args[0]
         return None
+
+    def is_alias_def(s) -> bool:
+        return isinstance(s, ast.Assign) and len(s.targets) == 1 and isinstance(s.targets[0], ast.Name) \
+            and s.targets[0].id in write_aliases
 
     def child_loop(s):
         """for child in self._value: child._serialise(file, indent, open_brace, close_brace, X) -> pieces of X"""
@@ -490,17 +648,46 @@ def tr_inner(fn: ast.FunctionDef):
             raise _err(s, 'file/indent/open_brace/close_brace are not passed through unchanged to the children')
         return fs.pieces(cargs[4])
 
+    tree_names = {self_name} | {n.target.id for n in ast.walk(fn) if isinstance(n, ast.For) and isinstance(n.target, ast.Name)}
+
+    def store_kind(s):
+        """A statement that stores to a tree object ('store') or calls a mutating method on one ('mutate'); else None."""
+        tgts = []
+        if isinstance(s, ast.Assign):
+            tgts = s.targets
+        elif isinstance(s, ast.AugAssign) or (isinstance(s, ast.AnnAssign) and s.value is not None):
+            tgts = [s.target]
+        elif isinstance(s, ast.Delete):
+            tgts = s.targets
+        flat = []
+        for t in tgts:
+            flat += list(t.elts) if isinstance(t, (ast.Tuple, ast.List)) else [t]
+        if any(isinstance(t, (ast.Attribute, ast.Subscript)) and _root_name(t) in tree_names for t in flat):
+            return 'store'
+        if isinstance(s, ast.Expr) and isinstance(s.value, ast.Call) and isinstance(s.value.func, ast.Attribute) \
+                and s.value.func.attr in MUTATING_METHODS and _root_name(s.value.func.value) in tree_names:
+            return 'mutate'
+        return None
+
     def seq(stmts, allow_loop):
-        """-> (pieces before loop, child indent pieces or None, pieces after loop)"""
-        pre, post, loop = [], [], None
+        """-> (pieces before loop, child indent pieces or None, pieces after loop, the statements in order as instructions)"""
+        pre, post, loop, instrs = [], [], None, []
         for s in stmts:
             if isinstance(s, (ast.Assert, ast.Pass)):
                 continue
             if isinstance(s, ast.Expr) and isinstance(s.value, ast.Constant):
                 continue
+            if is_alias_def(s):
+                continue
             w = write_arg(s)
             if w is not None:
-                (pre if loop is None else post).extend(fs.pieces(w))
+                ps = fs.pieces(w)
+                (pre if loop is None else post).extend(ps)
+                instrs.append(('write', ps))
+                continue
+            sk = store_kind(s)
+            if sk is not None:
+                instrs.append((sk, s.lineno))
                 continue
             if isinstance(s, ast.Assign) and len(s.targets) == 1 and isinstance(s.targets[0], ast.Name) \
                     and s.targets[0].id not in fs.varmap and s.targets[0].id != self_name:
@@ -511,31 +698,43 @@ def tr_inner(fn: ast.FunctionDef):
                 if loop is not None:
                     raise _err(s, 'two child loops')
                 loop = lp
+                instrs.append(('children', lp))
                 continue
             raise _err(s, f'unrecognised statement in _serialise: {type(s).__name__}')
-        return pre, loop, post
+        return pre, loop, post, instrs
 
-    body = norm_tail([s for s in _strip_doc(fn.body) if not (isinstance(s, ast.AnnAssign) and s.value is None)])
+    body = norm_tail([s for s in _strip_doc(fn.body) if not (isinstance(s, ast.AnnAssign) and s.value is None)
+                      and not is_alias_def(s)])
+    # stores / mutating calls in front of the branches belong to every branch
+    prefix = []
+    while len(body) > 1 and store_kind(body[0]) is not None:
+        prefix.append((store_kind(body[0]), body[0].lineno))
+        body = norm_tail(body[1:])
     if len(body) != 1 or not isinstance(body[0], ast.If):
         raise _err(fn, '_serialise body is not a single if/else')
     top = body[0]
-    t = top.test
+    t = inline_self_preds(top.test, self_name)
     if not (isinstance(t, ast.Call) and _is_name(t.func, 'isinstance') and len(t.args) == 2
             and is_self_attr(t.args[0], '_value') and _is_name(t.args[1], 'list')):
         raise _err(top, 'top test is not isinstance(self._value, list)')
     blk = [s for s in top.body if not isinstance(s, (ast.Assert, ast.Pass))]
+    pre_blk = []
+    while len(blk) > 1 and store_kind(blk[0]) is not None:
+        pre_blk.append((store_kind(blk[0]), blk[0].lineno))
+        blk = blk[1:]
     if len(blk) != 1 or not isinstance(blk[0], ast.If):
         raise _err(top, 'block branch is not a single if/else on the root test')
     root_test = classify_root_test(blk[0].test, self_name)
-    rpre, rloop, rpost = seq(blk[0].body, True)
+    rpre, rloop, rpost, rins = seq(blk[0].body, True)
     if rpre or rpost or rloop is None:
         raise _err(blk[0], 'root branch writes text of its own or has no child loop')
-    head, child, tail = seq(blk[0].orelse, True)
+    head, child, tail, bins = seq(blk[0].orelse, True)
     if child is None:
         raise _err(blk[0], 'named-block branch has no child loop')
-    lpre, lloop, lpost = seq(top.orelse, False)
+    lpre, lloop, lpost, lins = seq(top.orelse, False)
     return dict(head=head, child_indent=child, tail=tail, leaf=lpre + lpost, root_indent=rloop,
-                root_test=root_test), self_name
+                root_test=root_test, prog=dict(root=prefix + pre_blk + rins, block=prefix + pre_blk + bins,
+                                               leaf=prefix + lins)), self_name
 
 
 def tr_export_struct(fn: ast.FunctionDef) -> dict:
@@ -616,7 +815,7 @@ def tr_export_struct(fn: ast.FunctionDef) -> dict:
     if len(body) != 1 or not isinstance(body[0], ast.If):
         raise _err(fn, 'export() body is not a single if/else')
     top = body[0]
-    t = top.test
+    t = inline_self_preds(top.test, self_name)
     if not (isinstance(t, ast.Call) and _is_name(t.func, 'isinstance') and len(t.args) == 2
             and is_self_attr(t.args[0], '_value') and _is_name(t.args[1], 'list')):
         raise _err(top, 'export(): top test is not isinstance(self._value, list)')
@@ -638,10 +837,54 @@ def tr_export_struct(fn: ast.FunctionDef) -> dict:
     return dict(root_test=root_test, head=head, prefix=prefix, tail=tail, leaf=leaf + lpost)
 
 
+SELF_PREDS: dict = {}      # methods of Keyvalues of the form `def m(self): return <expression>`: inlined where a test calls them
+
+
+def inline_self_preds(t: ast.AST, self_name: str, depth: int = 0) -> ast.AST:
+    """A test that asks a predicate method of the same object (`self.is_root()`, `self.has_children()`) is the test the
+    method's body makes: `self.m()` is replaced by the returned expression of `def m(self): return <expr>` (the method's
+    own name for self replaced by the caller's), repeatedly.  A fault inside such a helper is then seen exactly as if
+    it were written in place; a call that cannot be resolved is left alone (the classification then says RTOther)."""
+    import copy
+    if depth > 4:
+        return t
+
+    class Inl(ast.NodeTransformer):
+        def visit_Call(self, n):
+            self.generic_visit(n)
+            if isinstance(n.func, ast.Attribute) and _is_name(n.func.value, self_name) and not n.args and not n.keywords \
+                    and n.func.attr in SELF_PREDS:
+                mf = SELF_PREDS[n.func.attr]
+                par = mf.args.args[0].arg
+                body_ = copy.deepcopy(_strip_doc(mf.body)[0].value)
+                for x in ast.walk(body_):
+                    if isinstance(x, ast.Name) and x.id == par:
+                        x.id = self_name
+                return inline_self_preds(body_, self_name, depth + 1)
+            return n
+    out = Inl().visit(copy.deepcopy(t))
+    # `not (x is None)` = `x is not None`, `not (not x)` stays (truth test of a truth test: classified RTOther)
+    return ast.fix_missing_locations(ast.copy_location(out, t))
+
+
+def self_preds_of(cls: ast.ClassDef) -> dict:
+    out = {}
+    for n in cls.body:
+        if isinstance(n, ast.FunctionDef) and not n.decorator_list:
+            a = n.args
+            b = _strip_doc(n.body)
+            if len(a.args) == 1 and not (a.posonlyargs or a.kwonlyargs or a.vararg or a.kwarg) and len(b) == 1 \
+                    and isinstance(b[0], ast.Return) and b[0].value is not None:
+                out[n.name] = n
+    return out
+
+
 def classify_root_test(t: ast.AST, self_name: str) -> str:
     """The test that sends a list-valued node to the 'root' branch (children only, no header, no braces).
     `self._real_name is None` -> RTIsNone; a truth test `not self._real_name` -> RTFalsy (also true of the name '');
-    anything else -> RTOther (the obligation root_test_is_None_identity fails, the translator does not)."""
+    anything else -> RTOther (the obligation root_test_is_None_identity fails, the translator does not).
+    Predicate methods of the object (`self.is_root()`) are read through (inline_self_preds)."""
+    t = inline_self_preds(t, self_name)
     def is_name_attr(n):
         return isinstance(n, ast.Attribute) and n.attr in ('_real_name', 'real_name', 'name') \
             and _is_name(n.value, self_name)
@@ -1097,11 +1340,13 @@ def translate() -> tuple[str, dict]:
     if cls is None:
         raise TranslateError('keyvalues.py: class Keyvalues not found')
     FStr.module_funcs = {n.name: n for n in tree.body if isinstance(n, ast.FunctionDef)}
+    SELF_PREDS.clear()
+    SELF_PREDS.update(self_preds_of(cls))
     f_ser = _find_method(cls, 'serialise')
     f_in = _find_method(cls, '_serialise')
     f_exp = _find_method(cls, 'export')
     f_parse = _find_method(cls, 'parse')
-    braces, s1 = tr_serialise(f_ser, f_in)
+    braces, s1, serpaths = tr_serialise(f_ser, f_in)
     inner, s2 = tr_inner(f_in)
     yields, s3 = tr_export(f_exp)
     xs = tr_export_struct(f_exp)
@@ -1155,6 +1400,7 @@ def translate() -> tuple[str, dict]:
          'Definition gen_tree_stores : list N := ' + coq_chars(''.join(chr(x) for x in stores)) + '.',
          'Definition gen_tree_mut_calls : list N := ' + coq_chars(''.join(chr(x) for x in muts)) + '.', '']
     root_test = inner.pop('root_test')
+    wprog = inner.pop('prog')
     side = {'templates': {k: [list(p) for p in v] for k, v in {**braces, **inner}.items()},
             'root_test': root_test, 'parse_sites': psites,
             'export_struct': {k: (v if isinstance(v, str) else [list(map(list, y)) if k != 'prefix' else list(y) for y in v])
@@ -1168,6 +1414,8 @@ def translate() -> tuple[str, dict]:
             'digests': {'parse': ast_digest(f_parse), 'Tokenizer': esc['tokenizer_digest'],
                         '_serialise': ast_digest(f_in), 'serialise': ast_digest(f_ser)}}
     side['read_flag_shape_recognised'] = read_flag_known
+    side['serialise_paths'] = serpaths
+    side['writer_program'] = {k: [[i[0], ([list(p) for p in i[1]] if isinstance(i[1], list) else i[1])] for i in v] for k, v in wprog.items()}
     return '\n'.join(L), side
 
 
